@@ -187,7 +187,7 @@ def materialise(case, root: Path):
             continue
         p = root / f["path"]
         if f["kind"] == "csv":
-            p.write_text("".join(SEP.join(sc(c) for c in r) + "\n" for r in f["sheets"][0]["rows"]))
+            p.write_text("".join(SEP.join(sc(c) for c in r) + "\n" for r in f["sheets"][0]["rows"]), newline="")
         elif f["kind"] == "xlsx":
             wb = openpyxl.Workbook()
             wb.remove(wb.active)
@@ -657,7 +657,11 @@ def _is_prefix(a, b):
 TOK = "#f{}s{}"
 
 
-def gen_sheet(rng, fi, si, name, elements, xlsx, offsets=True):
+# characters str.splitlines() treats as line boundaries but text-file iteration does not: legitimate inside a cell
+ODD = ["\x0b", "\x0c", "\x1c", "\x1d", "\x1e", "\x85", "\u2028", "\u2029"]
+
+
+def gen_sheet(rng, fi, si, name, elements, xlsx, offsets=True, lead_fixed=None):
     """rows + ground truth of one sheet.  elements: ("meta",) ("table", nm) ("include", [(spec, target)…])
     ("directive", nm, [lines]) ("template",) — separated by blank rows / a comment row / nothing"""
     rows, truth = [], []
@@ -667,12 +671,20 @@ def gen_sheet(rng, fi, si, name, elements, xlsx, offsets=True):
     def cells(*xs):
         return list(xs)
 
+    def odd():
+        # workbooks cannot hold control characters (openpyxl refuses them); CSV and mem: files can
+        if xlsx or not offsets or rng.random() > 0.3:
+            return ""
+        return rng.choice(ODD) + (rng.choice(ODD) if rng.random() < 0.2 else "")
+
     first = True
-    if offsets:
+    if lead_fixed is not None:
+        rows += [list(blank) for _ in range(lead_fixed)]
+    elif offsets:
         lead = rng.choice([0, 0, 1, 2, 3, 4])
         if lead and rng.random() < 0.3 and not (elements and elements[0][0] == "meta"):
             truth.append({"ty": "BLANK", "row": 0, "name": None})
-            rows.append(cells(None if xlsx else "", "comment " + tok))
+            rows.append(cells(None if xlsx else "", "comment " + odd() + tok))
             lead -= 1
         if not (elements and elements[0][0] == "meta"):
             rows += [list(blank) for _ in range(lead)]
@@ -680,9 +692,9 @@ def gen_sheet(rng, fi, si, name, elements, xlsx, offsets=True):
         kind = el[0]
         if kind == "meta":
             truth.append({"ty": "METADATA", "row": len(rows), "name": None})
-            rows.append(cells("author:", "a " + tok))
+            rows.append(cells("author:", "a " + odd() + tok))
             if rng.random() < 0.5:
-                rows.append(cells("purpose:", "p"))
+                rows.append(cells("purpose:", "p" + odd() + "q"))
         elif kind == "table":
             truth.append({"ty": "TABLE", "row": len(rows), "name": el[1]})
             ncol = rng.choice([1, 2])
@@ -696,7 +708,7 @@ def gen_sheet(rng, fi, si, name, elements, xlsx, offsets=True):
                 vals = []
                 for u in units:
                     if u == "text":
-                        vals.append("v" + str(rng.randint(0, 9)))
+                        vals.append("v" + odd() + str(rng.randint(0, 9)))
                     elif xlsx:
                         vals.append(rng.choice([1, 2.5, 3]))
                     else:
@@ -724,7 +736,7 @@ def gen_sheet(rng, fi, si, name, elements, xlsx, offsets=True):
             term = "none"
         if term == "comment":
             truth.append({"ty": "BLANK", "row": len(rows), "name": None})
-            rows.append(cells(None if xlsx else "", "comment " + tok))
+            rows.append(cells(None if xlsx else "", "comment " + odd() + tok))
             rows += [list(blank) for _ in range(rng.choice([1, 1, 2]))]
         elif term == "blank":
             rows += [list(blank) for _ in range(rng.choice([1, 1, 2, 3]) if offsets else 1)]
@@ -799,7 +811,7 @@ def bad_spec(rng, case, src):
 
 
 def build_case(rng, n_files, edges, *, folders, kinds, root_folder, roots_mode, start_pattern, tracker,
-               allow_include, mem, extra_edges=(), rich=True, sheet_pattern=None, names=None):
+               allow_include, mem, extra_edges=(), rich=True, sheet_pattern=None, names=None, opts=None):
     """edges: set of (i, j) file→file includes; extra_edges: (i, target) with target a ("D", rel) or a bad marker"""
     prefixes = ["in_", "set_", "x_", "In_"]
     files = []
@@ -825,22 +837,38 @@ def build_case(rng, n_files, edges, *, folders, kinds, root_folder, roots_mode, 
         inc = [("F", j) for (a, j) in sorted(edges) if a == i] + [t for (a, t) in extra_edges if a == i]
         rng.shuffle(inc)
         xlsx = f["kind"] == "xlsx"
+        opts = opts or {}
         nsheets = rng.choice([1, 2, 3]) if xlsx else 1
+        nsheets = max(nsheets, opts.get("min_sheets", 1)) if xlsx else 1
         per_sheet = [[] for _ in range(nsheets)]
         # distribute include targets over sheets / directives
         groups = []
         while inc:
-            k = rng.choice([1, 1, 2, 3]) if rich else len(inc)
+            k = (1 if opts.get("split_groups") else rng.choice([1, 1, 2, 3])) if rich else len(inc)
             groups.append(inc[:k])
             inc = inc[k:]
-        for g in groups:
+        # workbooks: include directives on different sheets that start on the same 0-based row
+        aligned = xlsx and nsheets >= 2 and len(groups) >= 2 and rng.random() < opts.get("aligned_p", 0.5)
+        front = {}
+        for gi, g in enumerate(groups):
             lines = []
             for t in g:
                 if t[0] == "BAD":
                     lines.append(bad_spec(rng, case, i))
                 else:
                     lines.append(spec_for(rng, case, i, t))
-            per_sheet[rng.randrange(nsheets)].append(("include", lines))
+            # the same specification listed again in the same directive (adjacent or not): equal LoadItems
+            if lines and rng.random() < (0.3 if rich else 0.15):
+                j = rng.randrange(len(lines))
+                lines.insert(rng.choice([j + 1, len(lines), 0]), lines[j])
+                if rng.random() < 0.2:
+                    lines.insert(rng.randrange(len(lines) + 1), lines[j])
+            el = ("include", lines)
+            si_ = gi if (aligned and gi < nsheets) else rng.randrange(nsheets)
+            if aligned and gi < nsheets:
+                front[si_] = el
+            per_sheet[si_].append(el)
+        lead_common = rng.choice([0, 1, 2, 3]) if aligned else None
         for si in range(nsheets):
             els = per_sheet[si]
             ntab = rng.choice([0, 1, 1, 2, 3]) if rich else 1
@@ -854,10 +882,16 @@ def build_case(rng, n_files, edges, *, folders, kinds, root_folder, roots_mode, 
                 if rng.random() < 0.25:
                     els.append(("template",))
             rng.shuffle(els)
-            if rich and rng.random() < 0.3:
+            if si in front:
+                els.remove(front[si])
+                els.insert(0, front[si])
+            elif rich and rng.random() < 0.3:
                 els.insert(0, ("meta",))
             sname = None if not xlsx else rng.choice(["in_", "set_", "x_"]) + "s%d" % si
-            sh = gen_sheet(rng, i, si, sname, els, xlsx, offsets=rich)
+            sh = gen_sheet(rng, i, si, sname, els, xlsx, offsets=rich,
+                           lead_fixed=lead_common if si in front else None)
+            if si in front:
+                case.setdefault("aligned_includes", []).append([i, si, sh["truth"][0]["row"]])
             if sheet_pattern and xlsx:
                 sh["use"] = re.compile(sheet_pattern).match(sname) is not None
             f["sheets"].append(sh)
@@ -1017,6 +1051,12 @@ def classify(case, impl, out):
     out.count("mem:" + str(case["mem"]))
     out.count("pattern:" + str(case["start_pattern"]))
     out.count("roots:" + ("default" if case["roots"] is None else str(len(case["roots"]))))
+    if any(len(b["lines"]) != len(set(b["lines"])) for f in case["files"] for sh in f["sheets"]
+           for b in sh["truth"] if b["ty"] == "DIRECTIVE" and b["name"] == "include"):
+        out.count("cases_with_a_specification_repeated_in_one_directive:" + case["tracker"])
+    if any(c in cell for f in case["files"] if f["kind"] == "csv" for sh in f["sheets"] for r in sh["rows"]
+           for cell in r if isinstance(cell, str) for c in ODD):
+        out.count("cases_with_splitlines_only_characters_in_csv_cells")
     st = impl["status"]
     out.count("status:" + (st if isinstance(st, str) else st["exc"]))
     if impl["issues"]:
